@@ -339,6 +339,10 @@ def build(tier, seed):
     for m13 in build_c13(tier, seed).modules:
         m13.obs = [o for o in m13.obs if o.name == "history"]
         mods.append(m13)
+    from props.C10 import build as build_c10
+    for m10 in build_c10(tier, seed).modules:
+        if m10.key == "c10_multi":
+            mods.append(m10)
     return Plan("C11", mods + [mk, mi],
                 assumptions=["histories are enumerated natively (bounded family, stated as enumeration); the datum is symbolic",
                              "cached_call sites whose arguments are closures/enums/bools/classes are argued by identity; only the Literal site takes values"],
